@@ -338,6 +338,33 @@ def check_pair(case, s0, s1, itp, subsystems):
             if err > TOL * max(1.0, float(np.abs(ref).max())):
                 return {"ok": False, "key": "interpolate:HH_K_not_affine",
                         "detail": f"{case} alpha={alpha}: |H(alpha,k) - [(1-a)H0(k)+aH1(k)]| = {err:.3g}"}
+    # ---------------- history: the results are the caller's to modify.  Change every matrix and the centres of the two
+    # endpoint results IN PLACE, then interpolate again: the endpoints held by the interpolator, and therefore every
+    # alpha, must be what they were
+    snap = {alpha: [({k: np.array(v, copy=True) for k, v in get(results[alpha])._XX_R.items()},
+                     np.array(get(results[alpha]).wannier_centers_cart, copy=True)) for label, get, e0, e1 in subsystems]
+            for alpha in ALPHAS}
+    for alpha in (0.0, 1.0):
+        for label, get, e0, e1 in subsystems:
+            sub = get(results[alpha])
+            for k in sub._XX_R:
+                sub._XX_R[k] += 0.37
+            sub.wannier_centers_cart[...] += 0.05
+    for alpha in ALPHAS:
+        again = itp.interpolate(alpha)
+        for (label, get, e0, e1), (mats, cen) in zip(subsystems, snap[alpha]):
+            sub = get(again)
+            for k, v in mats.items():
+                err = float(np.abs(sub._XX_R[k] - v).max()) if sub._XX_R[k].shape == v.shape else np.inf
+                if err > TOL * max(1.0, float(np.abs(v).max())):
+                    return {"ok": False, "key": f"interpolate:result_aliases_interpolator_data:{k}",
+                            "detail": f"{case} {label}: after the results of interpolate(0) and interpolate(1) were modified in place, "
+                                      f"interpolate({alpha}) gives {k} different by {err:.3g} from the first call"}
+            err = float(np.abs(sub.wannier_centers_cart - cen).max())
+            if err > TOL:
+                return {"ok": False, "key": "interpolate:result_aliases_interpolator_data:centres",
+                        "detail": f"{case} {label}: after the endpoint results were modified in place, interpolate({alpha}) gives centres "
+                                  f"different by {err:.3g} from the first call"}
     return None
 
 
